@@ -232,6 +232,17 @@ func main() {
 		fn = fd.Name.Name
 		rewriteFuncBody(fd.Body)
 	}
+	// the free-space question goes to the simulated disk: syscall.Statfs(...) -> verifsim.Statfs(...)
+	ast.Inspect(f, func(n ast.Node) bool {
+		if c, ok := n.(*ast.CallExpr); ok {
+			if s, ok := c.Fun.(*ast.SelectorExpr); ok && s.Sel.Name == "Statfs" {
+				if x, ok := s.X.(*ast.Ident); ok && x.Name == "syscall" {
+					x.Name = "verifsim"
+				}
+			}
+		}
+		return true
+	})
 	// import "verifsim"
 	imp := &ast.GenDecl{Tok: token.IMPORT, Specs: []ast.Spec{&ast.ImportSpec{Path: &ast.BasicLit{Kind: token.STRING, Value: `"verifsim"`}}}}
 	f.Decls = append([]ast.Decl{imp}, f.Decls...)
